@@ -2,4 +2,4 @@ From Coq Require Import Extraction ExtrOcamlBasic.
 From CV Require Import Base.Num C19.OutputModel.
 Extraction Language OCaml.
 Extraction "model.ml" mkNumOps nhalf mkVF mkBF mkCfg mkTS traj_init traj_run labels_of data_of expected_of
-  data_steps calc_steps mkVS vel_run r0 runave_run acf_model rv0 runaveV_run lv_ops mkOC out_run label_token abf_hist flush_run.
+  data_steps calc_steps mkVS vel_run r0 runave_run acf_model rv0 runaveV_run lv_ops mkOC out_run label_token col_label abf_hist flush_run buf_run traj_bevents write_multicol read_multicol lf0 lf_run.
